@@ -620,11 +620,21 @@ fn rrtstar_transition<K: Kind>(
         }
     }
     let mut exact = true;
+    // Several nodes can be equally near (duplicates of one state with different costs): the
+    // planner extends from one of them, and the others count only if they are neighbours. So a
+    // nearest node outside the radius is a candidate only if *every* nearest node would have
+    // been cheaper than the cost recorded.
+    let via_of = |j: usize| t0[j].cost + ks.d(&new.s, &t0[j].s);
+    let some_nearest_not_cheaper = nearest.iter().any(|j| !(via_of(*j) < new.cost));
     for j in &cand {
         // the nearest node is always reachable (its motion was just accepted); for the others a
         // cheaper cost must be explained by a rejected motion query on j -> new
-        let via = t0[*j].cost + ks.d(&new.s, &t0[*j].s);
+        let via = via_of(*j);
         if via < new.cost {
+            if nearest.len() > 1 && nearest.contains(j) && !nb.contains(j) && some_nearest_not_cheaper {
+                ctx.label("rrtstar:tie-among-nearest-nodes-outside-radius");
+                continue;
+            }
             let explained = !nearest.contains(j) && rejected_on(&t0[*j].s, &new.s);
             if !explained {
                 ctx.fail(
